@@ -83,5 +83,35 @@ def make_sim(root, simname, layout=('onefile', 'ungrouped'), restarts=None, shap
     return truth
 
 
+def make_checkpoints(root, simname, restart, its, perproc, cuts, shape=(6, 5, 4), ghost=2, variables=('alp', 'betax'), gen=5):
+    """checkpoint files checkpoint.chkpt.it_<n>[.file_<c>].h5 of restart `restart`: time levels 0 and 1 (only tl=0 is data),
+    -> truth {(var, it): array}"""
+    d = os.path.join(root, simname, f'output-{restart:04d}', simname)
+    os.makedirs(d, exist_ok=True)
+    boxes = list(itertools.product(splits(shape[0], cuts[0]), splits(shape[1], cuts[1]), splits(shape[2], cuts[2])))
+    truth = {}
+    for it in its:
+        files = {}
+        for var in variables:
+            thorn = GROUPS[var][0]
+            G = cell_values(var, it, 0, shape, gen)
+            truth[(var, it)] = G
+            Gp = np.pad(G, ghost, mode='constant', constant_values=-7.0)
+            for ci, ((x0, x1), (y0, y1), (z0, z1)) in enumerate(boxes):
+                blk = Gp[x0:x1 + 2 * ghost, y0:y1 + 2 * ghost, z0:z1 + 2 * ghost]
+                fn = f'checkpoint.chkpt.it_{it}' + (f'.file_{ci}' if perproc and len(boxes) > 1 else '') + '.h5'
+                if fn not in files:
+                    files[fn] = h5py.File(os.path.join(d, fn), 'w')
+                for tl in (0, 1):
+                    key = f'{thorn}::{var} it={it} tl={tl} rl=0' + (f' c={ci}' if len(boxes) > 1 else '')
+                    ds = files[fn].create_dataset(key, data=np.transpose(blk if tl == 0 else blk * 0 - 3.0, (2, 1, 0)))
+                    ds.attrs['cctk_nghostzones'] = np.array([ghost] * 3, dtype=np.int32)
+                    ds.attrs['iorigin'] = np.array([x0, y0, z0], dtype=np.int32)
+                    ds.attrs['time'] = 1.0 + 0.5 * it
+        for f in files.values():
+            f.close()
+    return truth
+
+
 def param_for(root, simname):
     return {'simulation': 'ET', 'simpath': root.rstrip('/') + '/', 'simname': simname}
